@@ -321,6 +321,12 @@ def invalid_alts(shape_nodes, univ, typed, other, families=None, thin=False):
                     out.append(["addtree", 0, p, 1, b, deep])
             for deep in (None, False):
                 out.append(["addtree", 0, p, 0, None, deep])                # the tree into itself
+            if p == 0:
+                # the forest (several top nodes) into the other tree: the source must keep its order
+                for tgt in (0, o_top, o_child):
+                    for b in (None, True, 0, {"n": o_child}):
+                        for deep in (None, False):
+                            out.append(["addtree", 1, tgt, 0, b, deep])
         if want("from_dict"):
             fresh = [univ.index(x) for x in ("s:f1", "s:f2", "s:f3")]
             some = label_of[ids[0]][0] if ids else new_d
@@ -980,3 +986,52 @@ def run_raw_invalid(univ, setup, typed, only=None):
             if snapshot(w) != snap0:
                 fails.append((name, None, f"raised {type(raised).__name__} but {snap_diff(snap0, snapshot(w))}"))
     return fails, stats
+
+
+# ---------------------------------------------------------------------------
+# (a3) late collisions: the refusal is caused by the LAST element the operation would touch, so an implementation
+# that validates while it mutates has already changed something when it notices
+# ---------------------------------------------------------------------------
+def late_collision_hists():
+    U = ["s:a", "s:b", "s:c", "s:d", "s:x", "s:y", "e:1", "e:1"]
+    a, b, c, d, x, y = range(6)
+    new = ["new", False, None]
+
+    def add(ti, p, dd, did=None, before=None):
+        return ["add", ti, p, dd, did, None, before]
+
+    H_ = []
+    # remove(keep_children): the last child collides with a sibling of the removed node
+    base = [new, add(0, 0, a), add(0, 0, x), add(0, 2, b), add(0, 2, c), add(0, 2, a)]       # a, x > (b, c, a')
+    H_.append(base + [["remove", 0, 2, True, False]])
+    H_.append(base + [["remove", 0, 2, True, True]])
+    # ... two levels: x > (b, y > (a')), remove y then x
+    H_.append([new, add(0, 0, a), add(0, 0, x), add(0, 2, b), add(0, 2, y), add(0, 4, a), ["remove", 0, 4, True, False],
+               ["remove", 0, 2, True, False]])
+    # remove(with_clones, keep_children): the second clone's child collides
+    H_.append([new, add(0, 0, x), add(0, 1, b), add(0, 0, y), add(0, 3, x), add(0, 4, c), add(0, 3, c), ["remove", 0, 1, True, True]])
+    # move_to: target has the same data as its last child
+    H_.append([new, add(0, 0, a), add(0, 0, x), add(0, 2, b), add(0, 2, a), ["move", 0, 1, 0, 2, None], ["move", 0, 1, 0, 2, True],
+               ["move", 0, 1, 0, 2, {"n": 3}], ["move", 0, 4, 0, 0, None], ["move", 0, 4, 0, 0, 0]])
+    # set_data(with_clones=True): the LAST clone of the group gets a colliding sibling
+    H_.append([new, add(0, 0, x), add(0, 1, a), add(0, 0, y), add(0, 3, a), add(0, 3, b), ["set_data", 0, 2, b, None, True],
+               ["set_data", 0, 2, None, "ID", True], ["set_data", 0, 4, b, None, True], ["rename", 0, 2, b]])
+    H_.append([new, add(0, 0, x), add(0, 1, 6, "k1"), add(0, 0, y), add(0, 3, 7, "k1"), add(0, 3, b, "k2"),
+               ["set_data", 0, 2, None, "k2", True], ["set_data", 0, 4, None, "k2", True], ["set_data", 0, 4, None, "k2", False]])
+    # add(tree) / copy_to: the last top node / child of the source collides
+    src = [new, new, add(0, 0, a), add(0, 0, b), add(0, 0, c), add(0, 3, d), add(1, 0, x), add(1, 5, c)]   # tree0: a b c>(d); tree1: x>(c')
+    for bef in (None, True, 0):
+        for deep in (None, True, False):
+            H_.append(src + [["addtree", 1, 5, 0, bef, deep]])
+    H_.append(src + [["copyto", 0, 0, 1, 5, False, None, True], ["copyto", 0, 0, 1, 5, False, None, False]])
+    H_.append([new, new, add(0, 0, y), add(0, 1, a), add(0, 1, b), add(0, 1, c), add(1, 0, x), add(1, 5, c),
+               ["copyto", 0, 1, 1, 5, False, None, True], ["copyto", 0, 1, 1, 5, False, None, False], ["copyto", 0, 1, 1, 0, False, None, True]])
+    # from_dict: the very last item (third level) collides
+    H_.append([new, add(0, 0, a), ["from_dict", 0, 1, [[b, None, [[c, None, []], [d, None, [[x, None, []], [y, None, []], [x, None, []]]]]]]],
+               ["from_dict", 0, 1, [[b, None, []], [c, None, []], [b, None, []]]],
+               ["from_dict", 0, 1, [[b, "I", []], [c, "J", [[d, "I", []], [x, "I", []]]]]]])
+    H_.append([["tree_from_dict", [[a, None, [[b, None, []]]], [c, None, []], [a, None, []]]]])
+    # add: colliding with the last child, every position
+    H_.append([new, add(0, 0, a), add(0, 0, b), add(0, 0, c), add(0, 0, c), add(0, 0, c, None, True), add(0, 0, c, None, {"n": 1}),
+               add(0, 0, d, None, {"n": 9}), ["short", 0, 1, "append_sibling", c, None, None], ["short", 0, 3, "prepend_sibling", a, None, None]])
+    return [dict(univ=U, ops=h) for h in H_]
